@@ -182,9 +182,18 @@ Definition prod_env (sn : snap) (dst_in_U : bool) (p : stepr) : benv :=
 Definition dead_file (sn : snap) (f : filer) : bool :=
   negb (existsb (fun p => sholds (prod_env sn true p) gen_live_producer) (producers sn (f_id f))).
 
-(* _INSERT_PEND_UNSAFE_ANC *)
-Definition chain_ok (p : stepr) : bool :=
-  ((s_state p =? SS_RUNNING) || (s_state p =? SS_SUCCEEDED)) && (s_holding p =? 0).
+(* _INSERT_PEND_UNSAFE_ANC: the recursive walk up node.creator.  Seed condition (on the pend_step row),
+   continue-through condition and stop condition (on the ancestor's step row) are the translated
+   WHERE clauses; a row without a step (the root's creator) ends the walk. *)
+Definition self_env (u : stepr) (has_fb : bool) : benv :=
+  fun c => match c with
+           | B_ps_deferred => ob (s_deferred u) | B_ps_unsafe => ob (s_unsafe u)
+           | B_has_file_block => ob has_fb
+           | _ => None
+           end.
+Definition anc_gate (u : stepr) : bool := sholds (self_env u false) gen_anc_seed_where.
+Definition chain_ok (p : stepr) : bool := sholds (ps_env 0 p) gen_anc_cont_where.
+Definition anc_stop (p : stepr) : bool := sholds (ps_env 0 p) gen_anc_stop_where.
 Fixpoint anc_walk (sn : snap) (fuel : nat) (a : option N) : option stepr :=
   match fuel with
   | O => None
@@ -192,12 +201,13 @@ Fixpoint anc_walk (sn : snap) (fuel : nat) (a : option N) : option stepr :=
            | None => None
            | Some i => match find_step sn i with
                        | None => None
-                       | Some p => if chain_ok p then anc_walk sn k (s_creator p) else Some p
+                       | Some p => if chain_ok p then anc_walk sn k (s_creator p)
+                                   else if anc_stop p then Some p else None
                        end
            end
   end.
 Definition unsafe_anc (sn : snap) (u : stepr) : option stepr :=
-  if s_unsafe u then anc_walk sn (S (length (sn_steps sn))) (s_creator u) else None.
+  if anc_gate u then anc_walk sn (S (length (sn_steps sn))) (s_creator u) else None.
 
 (* _INSERT_PEND_RESOURCE / the RESOURCE arm *)
 Fixpoint lookup_str (k : str) (l : list (str * N)) : option N :=
@@ -220,12 +230,6 @@ Definition file_env (sn : snap) (dst_in_U : bool) (f : filer) : benv :=
   fun c => match c with
            | B_file_state => Some (f_state f) | B_file_detached => ob (f_detached f)
            | B_dst_in_U => ob dst_in_U
-           | _ => None
-           end.
-Definition self_env (u : stepr) (has_fb : bool) : benv :=
-  fun c => match c with
-           | B_ps_deferred => ob (s_deferred u) | B_ps_unsafe => ob (s_unsafe u)
-           | B_has_file_block => ob has_fb
            | _ => None
            end.
 Definition step_row (sn : snap) (du : bool) (p : stepr) (with_label : bool) : brow :=
@@ -312,9 +316,14 @@ Definition blocker_rows (sn : snap) : list (N * cand) := map (fun u => (s_id u, 
 
 (* _INSERT_PEND_ATTRIBUTED: breadth-first evaluation of the recursive CTE with UNION ALL.
    A row (i, root) says step i is attributed to root. *)
-Definition is_seed (row : N * cand) : bool := negb (c_kind (snd row) =? K_BLOCK_STEP).
-Definition is_child (i : N) (row : N * cand) : bool :=
-  (c_kind (snd row) =? K_BLOCK_STEP) && (c_src (snd row) =? i).
+Definition w_env (row : N * cand) (walk_i : option N) (c : wcol) : option N :=
+  match c with
+  | W_kind => Some (c_kind (snd row)) | W_src => Some (c_src (snd row)) | W_dst => Some (fst row)
+  | W_walk_i => walk_i
+  end.
+(* seed rows and the join condition of the recursive step, as translated *)
+Definition is_seed (row : N * cand) : bool := sholds (w_env row None) gen_attr_seed_where.
+Definition is_child (i : N) (row : N * cand) : bool := sholds (w_env row (Some i)) gen_attr_join.
 Definition seeds (B : list (N * cand)) : list (N * cand) := filter is_seed B.
 Definition children (B : list (N * cand)) (i : N) : list N := map fst (filter (is_child i) B).
 Definition wstep (B : list (N * cand)) (F : list (N * cand)) : list (N * cand) :=
